@@ -122,6 +122,9 @@ def run_suites(pid, suites, tier, seed, vh, known, evidence):
                 if isinstance(i, dict) and i.get("hung"):
                     # the harness's last-resort watchdog: a call of the library never returned (blocked in the kernel)
                     v = Verdict(False, False, "%s; goroutines: %s" % (i["hung"], str(i.get("stacks", ""))[:1500]))
+                elif isinstance(i, dict) and "crash" in i and not getattr(suite, "handles_crash", False):
+                    # the harness process died on this op, and again when the op was run on its own: a panic / fatal error in the library
+                    v = Verdict(False, False, "the process died on this operation (also when run alone): %s" % str(i["crash"])[-1200:])
                 else:
                     v = suite.judge(op, i, m)
             except Exception as e:
